@@ -108,7 +108,7 @@ def r2(run):
         run.ob(cons + "|homogeneous", len(kinds) == 1, b.sp, "all operations of the batch are of one kind (%s)" % sorted(k.split("::")[-1] for k in kinds),
                reason="mixed-batch")
         # the operation is ONE journal batch: it does not also call another batch-committing store function
-        nested = [c for c in b.calls() if c.bb in b.live_blocks() and c.fn in (C.INSERT_FRAME, C.REMOVE) and c.fn != b.def_
+        nested = [c for c in b.calls() if c.bb in b.live_blocks() and c.fn in (C.INSERT_FRAME,) + C.removers(run.facts) and c.fn != b.def_
                   and any(q.reaches(b, cm2.bb, c.bb) or q.reaches(b, c.bb, cm2.bb) for cm2 in info["commits"])]   # on one path with this batch
         run.ob(cons + "|single-journal-batch", not nested, nested[0].sp if nested else b.sp,
                "%s changes the partitions in one atomic batch only (no nested %s: a crash between two batches would leave the operation half applied)" % (
